@@ -4,11 +4,13 @@ import (
 	"encoding/json"
 	"fmt"
 	"hash/fnv"
+	"math/rand"
 	"reflect"
 	"runtime"
 	"sort"
 	"strings"
 	"sync"
+	"sync/atomic"
 	"time"
 
 	"github.com/enbility/spine-go/api"
@@ -32,6 +34,10 @@ import (
 // conc / conc-race: 8 goroutines call GetOrAddFeature for 2-3 (type, role) pairs and NextFeatureId on
 // one entity while a rendezvous at GetOrAddFeature.afterMiss holds the first k of them between the
 // lookup miss and the creation.
+//
+// read-feat / read-feat-race: discovery reads concurrent with AddFunctionType / SetDescriptionString / GetOrAddFeature
+// (c07ReadFeat). entity-conc / entity-conc-race: AddEntity / RemoveEntity of different entities at the same time
+// (c07EntConc).
 //
 // notify-window / notify-window-race: the connection writer of a subscribed peer is slow (TCP back-pressure): it
 // parks the AddEntity / RemoveEntity call inside the write of the "added" / "removed" notification until the
@@ -64,14 +70,26 @@ func init() {
 			"notify-window: case = local device with 0-2 entities, 1-3 peers subscribed to NodeManagement (seeded subset of them, at least one, with a connection writer that blocks inside the write of an entity notification until the peer's " +
 			"reader goroutine has issued a discovery read, FeatureByAddress for every announced address and a read to a seeded feature of the announced entity; bounded wait, an expired wait is counted and makes the case inconclusive) and a seeded history of 5-8 AddEntity / RemoveEntity / re-AddEntity calls; " +
 			"a read issued after the 'added [x]' notification was handed to the writer must list x with its features and a read to an announced feature must be answered as the same read is answered after the call returned; a read issued after 'removed [x]' must not list x; " +
-			"non-trivial if at least one 'added' and one 'removed' window were forced and judged; distinct = distinct (subscriber count, which of them are reactive, operation kinds with feature counts).",
+			"non-trivial if at least one 'added' and one 'removed' window were forced and judged; distinct = distinct (subscriber count, which of them are reactive, operation kinds with feature counts). " +
+			"Construction flavours of the sequential part (second PRNG): features added through NextFeatureId+NewFeatureLocal+AddFeature in descending / seeded order of their numbers (groups of 2-3, and every new entity object built for the address of a removed one), a feature under a number the application chose itself (40-49) added before generated ones, " +
+			"a feature with the role special (with functions), entities without any feature, AddFeature of a SECOND object for an existing (type, role) (the entity keeps one feature of that pair, asking yields the first); entity [0] is pinned as constants (NodeManagement special [0]/0 with its nine functions, DeviceClassification server [0]/1 with readable manufacturer data); " +
+			"peer2 subscribes to NodeManagement with a NodeManagement client feature [1]/2: every entity notification is judged for source = local NodeManagement, destination = the subscribed client feature, cmd.function. " +
+			"conc additionally: explicit-path calls (NextFeatureId+NewFeatureLocal+AddFeature+FeatureOfTypeAndRole) for contested pairs racing GetOrAddFeature, one of them by the k-th goroutine inside the window, a feature of its own (type, role) per goroutine (goroutines 0 and 1: the holder of the higher number adds first), and 4-7 storms (all 8 goroutines ask for one new pair at once behind a spinning barrier). " +
+			"read-feat: case = 2-3 entities with 2-3 server features; one goroutine sends 30 discovery reads while another makes 40-100 seeded calls AddFunctionType / SetDescriptionString / GetOrAddFeature (paced over the reads); every announced feature line must equal one of the renderings the feature had between call and return of that read (logical stamps), the read after quiescence the final tree; " +
+			"non-trivial if at least one read overlapped a call; distinct = distinct (entities, operation kinds, overlapped reads). " +
+			"entity-conc: case = 4-6 entity objects (two client features that subscribe/bind to server features of the peers before a removal, 1-3 server features, use case), 2-3 peers (seeded subset subscribed to NodeManagement), 4-7 rounds in which 2-4 goroutines call AddEntity / RemoveEntity for DIFFERENT entities at once (spinning barrier; one goroutine in three toggles twice), " +
+			"every second round staged: the first unsubscribe/unbind call of one RemoveEntity stays parked in peer0's connection writer until the other calls of the round have returned; after every round Entities(), Entity(), the discovery reply, FeatureByAddress (both address forms) equal the last acknowledged call per entity address and every subscribed peer got one notification per call (added: with the features; addressing judged); " +
+			"non-trivial if at least 3 rounds were judged and one staged window was forced; distinct = distinct (peers, entities, round shapes).",
 		Assumptions: []string{
 			"message handling and AddEntity/RemoveEntity notifications are synchronous, so the taps are complete when the call returns",
 			"not demanded: the entity description in the announcement, the partial sub-flags of operations, the content of the feature list of a 'removed' notification, datagrams other than detailed discovery data (use case notifications accompany RemoveEntity)",
 			"AddFunctionType is only called once per function and only on server features (it is documented to ignore client features); the heartbeat function is not added (C16)",
 			"'every announced feature address resolves back to that feature' is read for both legal forms of a feature address (the device part of a destination address is optional and defaults to the recipient) and at every moment: an address whose entity has been removed is not announced any more, " +
 				"so it resolves to nothing (FeatureByAddress nil; a read addressed to it is rejected with one error result), and after an entity with the same address has been added again it resolves to the feature of THAT entity object",
-			"the reference for the stack-built entity [0] is read through Features()/Operations(); for all other entities it is what the harness passed to the API",
+			"the reference for the stack-built entity [0] is a constant (c07E0: what a device with the feature set 'smart' consists of); for all other entities it is what the harness passed to the API",
+			"AddFeature with a second object of an existing (type, role): 'one and the same feature' is read as: the entity keeps exactly one feature of that pair and every way of asking for it yields the first object; a number chosen by the application itself (NewFeatureLocal(id)) is legitimate as long as the generator does not reach it",
+			"read-feat: 'at every moment' is read per announced feature: its line (description + operations) is one the feature had between the call and the return of the read. A line whose description and operations were each current during the read but never together is reported under its own signature read-feat/torn-feature-line/...",
+			"entity-conc: calls on different entity addresses commute; nothing is judged while calls are in flight, the staged writer only places the other calls inside the clean-up of one RemoveEntity (an expired stage is counted, never judged)",
 			"'each peer subscribed to node management' includes the peers whose entry follows that of a peer with a broken connection: the mute peer (SetupRemoteDevice with a nil writer) is not observed itself, only its effect on the others",
 			"notify-window: 'at every moment' is read causally: a peer that has been handed the notification about entity x on its connection and then sends a read gets an answer that is consistent with that notification (x listed with its features after 'added', not listed after 'removed'); " +
 				"whether a message to a feature of a REMOVED entity is still served is not judged; the read to an announced feature is judged differentially (same class and error number as the same read after the call returned), not against C01's rules",
@@ -83,6 +101,10 @@ func init() {
 			{Name: "read-conc", Cases: func(t rig.Tier) int { return map[rig.Tier]int{rig.Quick: 160, rig.Thorough: 3000}[t] }, Run: c07ReadConc, Procs: 4, Workers: 8, Quiet: 90 * time.Second},
 			{Name: "read-conc-race", Race: true, Cases: func(t rig.Tier) int { return map[rig.Tier]int{rig.Quick: 40, rig.Thorough: 500}[t] }, Run: c07ReadConc, Procs: 4, Workers: 16, Chunk: 3, Quiet: 120 * time.Second},
 			{Name: "notify-window", Cases: func(t rig.Tier) int { return map[rig.Tier]int{rig.Quick: 160, rig.Thorough: 3000}[t] }, Run: c07Window, Procs: 4, Workers: 8, Quiet: 90 * time.Second},
+			{Name: "read-feat", Cases: func(t rig.Tier) int { return map[rig.Tier]int{rig.Quick: 160, rig.Thorough: 2000}[t] }, Run: c07ReadFeat, Procs: 4, Workers: 8, Quiet: 90 * time.Second},
+			{Name: "read-feat-race", Race: true, Cases: func(t rig.Tier) int { return map[rig.Tier]int{rig.Quick: 24, rig.Thorough: 400}[t] }, Run: c07ReadFeat, Procs: 4, Workers: 12, Chunk: 2, Quiet: 120 * time.Second},
+			{Name: "entity-conc", Cases: func(t rig.Tier) int { return map[rig.Tier]int{rig.Quick: 48, rig.Thorough: 2000}[t] }, Run: c07EntConc, Procs: 4, Workers: 8, Quiet: 90 * time.Second},
+			{Name: "entity-conc-race", Race: true, Cases: func(t rig.Tier) int { return map[rig.Tier]int{rig.Quick: 16, rig.Thorough: 400}[t] }, Run: c07EntConc, Procs: 4, Workers: 12, Chunk: 2, Quiet: 120 * time.Second},
 			{Name: "notify-window-race", Race: true, Cases: func(t rig.Tier) int { return map[rig.Tier]int{rig.Quick: 32, rig.Thorough: 480}[t] }, Run: c07Window, Procs: 2, Workers: 16, Chunk: 2, Quiet: 120 * time.Second},
 		},
 	})
@@ -160,6 +182,39 @@ func c07ApiLine(f api.FeatureLocalInterface) string {
 	return c07Line(f.Address().String(), f.Type(), f.Role(), desc, ops)
 }
 
+// c07E0 is what entity [0] of the local device (built by the stack itself, device created with the feature set "smart")
+// consists of, as constants: NodeManagement (special) at [0]/0 with the node management functions, DeviceClassification
+// (server) at [0]/1 with readable manufacturer data. Nothing in C07 changes entity [0].
+var c07E0 = []struct {
+	id   uint
+	typ  model.FeatureTypeType
+	role model.RoleType
+	ops  map[model.FunctionType][2]bool
+}{
+	{0, model.FeatureTypeTypeNodeManagement, model.RoleTypeSpecial, map[model.FunctionType][2]bool{
+		model.FunctionTypeNodeManagementDetailedDiscoveryData:   {true, false},
+		model.FunctionTypeNodeManagementUseCaseData:             {true, false},
+		model.FunctionTypeNodeManagementSubscriptionData:        {true, false},
+		model.FunctionTypeNodeManagementSubscriptionRequestCall: {false, false},
+		model.FunctionTypeNodeManagementSubscriptionDeleteCall:  {false, false},
+		model.FunctionTypeNodeManagementBindingData:             {true, false},
+		model.FunctionTypeNodeManagementBindingRequestCall:      {false, false},
+		model.FunctionTypeNodeManagementBindingDeleteCall:       {false, false},
+		model.FunctionTypeNodeManagementDestinationListData:     {true, false},
+	}},
+	{1, model.FeatureTypeTypeDeviceClassification, model.RoleTypeServer, map[model.FunctionType][2]bool{
+		model.FunctionTypeDeviceClassificationManufacturerData: {true, false},
+	}},
+}
+
+func c07E0Lines() []string {
+	var ls []string
+	for _, f := range c07E0 {
+		ls = append(ls, c07Line(rig.FA(rig.LocalAddr, []uint{0}, f.id).String(), f.typ, f.role, nil, f.ops))
+	}
+	return ls
+}
+
 func c07DiffSig(want, got []string) string {
 	w, g := map[string]int{}, map[string]int{}
 	for _, x := range want {
@@ -229,13 +284,19 @@ func c07Seq(c *rig.Ctx) {
 
 	// peers: 0 subscribed to NodeManagement, 1 subscribed to another local feature only, 2 toggles
 	clientDC := rig.FS{Ent: []uint{1}, Id: 1, Typ: model.FeatureTypeTypeDeviceClassification, Role: model.RoleTypeClient}
+	// peer2 subscribes to the local NodeManagement feature with a NodeManagement-typed CLIENT feature of its entity [1]
+	// (not with its own [0]/0): the notification goes from the local NodeManagement feature to the subscribed feature
+	clientNM := rig.FS{Ent: []uint{1}, Id: 2, Typ: model.FeatureTypeTypeNodeManagement, Role: model.RoleTypeClient}
 	var peers []*rig.Peer
+	var subAddr []*model.FeatureAddressType // the client feature a peer subscribes to NodeManagement with
 	for i := 0; i < 3; i++ {
 		p := w.AddPeer(i)
 		p.Ctr = uint64(i+1) * 100000
-		p.Announce([]rig.FS{rig.NMFS, clientDC})
+		p.Announce([]rig.FS{rig.NMFS, clientDC, clientNM})
 		peers = append(peers, p)
+		subAddr = append(subAddr, p.NM())
 	}
+	subAddr[2] = rig.FA(peers[2].Addr, clientNM.Ent, clientNM.Id)
 	// in every second case a "mute" peer (connection without write handler: every send to it fails) subscribed to
 	// NodeManagement BEFORE everybody else; a send fault on its connection must not cost the others their notification
 	mute := c.Index%2 == 1
@@ -328,8 +389,10 @@ func c07Seq(c *rig.Ctx) {
 		}
 	}
 
-	addFunctions := func(e *c07RE, f *c07RF, max int) string {
-		if f.role != model.RoleTypeServer {
+	var addFunctionsR func(rr *rand.Rand, e *c07RE, f *c07RF, max int) string
+	addFunctions := func(e *c07RE, f *c07RF, max int) string { return addFunctionsR(r, e, f, max) }
+	addFunctionsR = func(r *rand.Rand, e *c07RE, f *c07RF, max int) string {
+		if f.role != model.RoleTypeServer && f.role != model.RoleTypeSpecial {
 			return ""
 		}
 		fns := c06FnsOf(f.typ)
@@ -396,6 +459,123 @@ func c07Seq(c *rig.Ctx) {
 		return "", "", false
 	}
 
+	aux := c10Aux(c, 7)
+	outOfOrder, dupAdds, highIds, emptyEnts, specials := 0, 0, 0, 0, 0
+	// ---- features added out of the order of their numbers, and a second object for an existing (type, role) (drawn from the second PRNG)
+	//
+	// The order in which an application adds the features it has built is its own business: explicitFeature adds one
+	// feature through NewFeatureLocal(id)+AddFeature under a number the caller got earlier from NextFeatureId (or chose
+	// itself), outOfOrderGroup takes n numbers first and adds the features in descending / seeded order of these numbers.
+	// The oracles are the ordinary ones: every feature is announced with its number, and every announced address
+	// resolves back to that feature.
+	freshPairR := func(rr *rand.Rand, e *c07RE) (model.FeatureTypeType, model.RoleType, bool) {
+		for try := 0; try < 20; try++ {
+			t := c07Types[rr.Intn(len(c07Types))]
+			ro := []model.RoleType{model.RoleTypeClient, model.RoleTypeServer}[rr.Intn(2)]
+			if usedPair(e, t, ro) == nil {
+				return t, ro, true
+			}
+		}
+		return "", "", false
+	}
+	explicitFeature := func(e *c07RE, id uint, t model.FeatureTypeType, ro model.RoleType, how string) *c07RF {
+		f := &c07RF{typ: t, role: ro, id: id, ops: map[model.FunctionType][2]bool{}}
+		fl := spine.NewFeatureLocal(id, e.obj, t, ro)
+		e.obj.AddFeature(fl)
+		f.obj = fl
+		if got := uint(*fl.Address().Feature); got != id {
+			fail("numbering/address!=number", "NewFeatureLocal(%d) has feature address %d", id, got)
+		}
+		if aux.Intn(3) > 0 {
+			s := fmt.Sprintf("desc-x%d", aux.Intn(10000))
+			fl.SetDescriptionString(s)
+			f.desc = &s
+		}
+		e.feats = append(e.feats, f)
+		fnInfo := addFunctionsR(aux, e, f, aux.Intn(4))
+		trace = append(trace, fmt.Sprintf("  entity %s: NewFeatureLocal(%d,%s,%s)+AddFeature (%s) desc=%s functions{%s}", c06Key(e.addr), id, t, ro, how, c06P(f.desc), fnInfo))
+		return f
+	}
+	outOfOrderGroup := func(e *c07RE, n int) int {
+		type pr struct {
+			t  model.FeatureTypeType
+			ro model.RoleType
+		}
+		var prs []pr
+		for len(prs) < n {
+			t, ro, ok := freshPairR(aux, e)
+			if !ok {
+				break
+			}
+			dup := false
+			for _, x := range prs {
+				dup = dup || (x.t == t && x.ro == ro)
+			}
+			if !dup {
+				prs = append(prs, pr{t, ro})
+			}
+		}
+		if len(prs) < 2 {
+			return 0
+		}
+		ids := make([]uint, len(prs))
+		for i := range prs {
+			ids[i] = e.obj.NextFeatureId()
+			hand(e, ids[i], "NextFeatureId")
+		}
+		order := make([]int, len(prs))
+		for i := range order {
+			order[i] = len(prs) - 1 - i
+		}
+		how := "numbers taken first, added in descending order"
+		if len(prs) > 2 && aux.Intn(2) == 0 {
+			how = "numbers taken first, added in seeded order"
+			order = aux.Perm(len(prs))
+			if sort.IntsAreSorted(order) {
+				order[0], order[1] = order[1], order[0]
+			}
+		}
+		for _, i := range order {
+			explicitFeature(e, ids[i], prs[i].t, prs[i].ro, how)
+		}
+		outOfOrder++
+		return len(prs)
+	}
+	// addDuplicate hands AddFeature a SECOND feature object for a (type, role) pair the entity already has (under a
+	// fresh number): the entity keeps having one feature of that type and role, and asking for it yields the first one
+	addDuplicate := func(e *c07RE) {
+		if len(e.feats) == 0 {
+			return
+		}
+		f := e.feats[aux.Intn(len(e.feats))]
+		id := e.obj.NextFeatureId()
+		hand(e, id, "NextFeatureId")
+		fl := spine.NewFeatureLocal(id, e.obj, f.typ, f.role)
+		fl.SetDescriptionString("second object of an existing type and role")
+		if f.role == model.RoleTypeServer {
+			for _, fi := range c06FnsOf(f.typ) {
+				if fi.Fn != model.FunctionTypeDeviceDiagnosisHeartbeatData {
+					fl.AddFunctionType(fi.Fn, true, true)
+					break
+				}
+			}
+		}
+		e.obj.AddFeature(fl)
+		dupAdds++
+		trace = append(trace, fmt.Sprintf("entity %s: NextFeatureId() = %d, NewFeatureLocal(%d,%s,%s)+AddFeature: a second object for the type and role of feature %d", c06Key(e.addr), id, id, f.typ, f.role, f.id))
+		c.Events(3)
+		if got := e.obj.FeatureOfTypeAndRole(f.typ, f.role); got != f.obj {
+			fail("features/asking-again-yields-other-feature", "after AddFeature of a second object for (%s,%s) FeatureOfTypeAndRole does not return the feature created first (number %d)", f.typ, f.role, f.id)
+		}
+		if got := e.obj.GetOrAddFeature(f.typ, f.role); got != f.obj {
+			fail("features/asking-again-yields-other-feature", "after AddFeature of a second object for (%s,%s) GetOrAddFeature does not return the feature created first (number %d)", f.typ, f.role, f.id)
+		}
+		if got := e.obj.FeatureOfAddress(util.Ptr(model.AddressFeatureType(f.id))); got != f.obj {
+			fail("resolve/announced-address-resolves-to-other-feature", "after AddFeature of a second object for (%s,%s) the number %d does not resolve to the feature created first", f.typ, f.role, f.id)
+		}
+		checkFeatures(e)
+	}
+
 	// ---- addressing across removals and re-additions (second PRNG: the histories drawn from c.Rand stay what they were)
 	//
 	// Every entity OBJECT ("incarnation") carries as its first feature a DeviceClassification server feature whose
@@ -406,7 +586,6 @@ func c07Seq(c *rig.Ctx) {
 	// The same is asked through the message path: a read of the manufacturer data whose addressDestination carries resp.
 	// omits the device part is answered with the data of the current incarnation, resp. with one error result (and no
 	// reply) if no entity with that address is part of the device.
-	aux := c10Aux(c, 7)
 	incarnations := 0
 	addProbe := func(e *c07RE) {
 		incarnations++
@@ -438,6 +617,7 @@ func c07Seq(c *rig.Ctx) {
 		trace = append(trace, fmt.Sprintf("new entity OBJECT for the address %s (type %s), features with the numbers of the removed one:", c06Key(t.addr), t.typ))
 		ofs := append([]*c07RF(nil), old.feats...)
 		sort.Slice(ofs, func(i, j int) bool { return ofs[i].id < ofs[j].id })
+		// the numbers are taken first (in ascending order, as the generator hands them out) ...
 		for _, of := range ofs {
 			var id uint
 			for n := 0; n < 64; n++ {
@@ -450,6 +630,31 @@ func c07Seq(c *rig.Ctx) {
 			if id != of.id {
 				panic(fmt.Sprintf("harness: NextFeatureId of a fresh entity skipped number %d (got %d)", of.id, id))
 			}
+		}
+		// ... and the features are then added in ascending, descending or seeded order of their numbers: the order of the
+		// AddFeature calls is the application's business
+		order := make([]int, len(ofs))
+		for i := range order {
+			order[i] = i
+		}
+		how := "ascending"
+		switch aux.Intn(4) {
+		case 0:
+			how = "descending"
+			for i := range order {
+				order[i] = len(ofs) - 1 - i
+			}
+		case 1:
+			how = "seeded"
+			order = aux.Perm(len(ofs))
+		}
+		if how != "ascending" && len(ofs) > 1 {
+			outOfOrder++
+		}
+		trace = append(trace, fmt.Sprintf("  AddFeature calls in %s order of the feature numbers:", how))
+		for _, oi := range order {
+			of := ofs[oi]
+			id := of.id
 			fl := spine.NewFeatureLocal(id, t.obj, of.typ, of.role)
 			t.obj.AddFeature(fl)
 			nf := &c07RF{obj: fl, id: id, typ: of.typ, role: of.role, ops: map[model.FunctionType][2]bool{}}
@@ -534,16 +739,22 @@ func c07Seq(c *rig.Ctx) {
 				}
 			}
 		}
-		// the stack-built entity [0]
-		if e0 := local.Entity(spine.DeviceInformationAddressEntity); e0 != nil {
-			for _, f := range e0.Features() {
-				for _, fo := range forms {
-					a := rig.FA(fo.dev, []uint{0}, uint(*f.Address().Feature))
-					resolutions++
-					c.Events(1)
-					if got := local.FeatureByAddress(a); got != f {
-						fail("resolve/"+fo.name+"/announced-address-resolves-to-other-feature", "%s: FeatureByAddress(%s) does not return the feature %s of entity [0]", when, rkKey(a), f.Address().String())
-					}
+		// the stack-built entity [0] (pinned: c07E0)
+		for _, f0 := range c07E0 {
+			var first api.FeatureLocalInterface
+			for _, fo := range forms {
+				a := rig.FA(fo.dev, []uint{0}, f0.id)
+				resolutions++
+				c.Events(1)
+				got := local.FeatureByAddress(a)
+				switch {
+				case rig.IsNil(got):
+					fail("resolve/"+fo.name+"/announced-address-does-not-resolve", "%s: FeatureByAddress(%s) is nil; entity [0] has the %s feature there", when, rkKey(a), f0.typ)
+				case got.Type() != f0.typ || got.Role() != f0.role || got.Address().Feature == nil || uint(*got.Address().Feature) != f0.id || (first != nil && got != first):
+					fail("resolve/"+fo.name+"/announced-address-resolves-to-other-feature", "%s: FeatureByAddress(%s) returns %s %s/%s; entity [0] has the %s feature there", when, rkKey(a), got.Address().String(), got.Type(), got.Role(), f0.typ)
+				}
+				if first == nil {
+					first = got
 				}
 			}
 		}
@@ -561,6 +772,9 @@ func c07Seq(c *rig.Ctx) {
 			}
 			seen[k] = true
 			ce, cf := current(c06Key(e0.addr), e0.probe.id)
+			if ce != nil && ce.probe != cf {
+				continue // the entity object under that address now was built without a probe feature (or has another feature under that number)
+			}
 			p := peers[aux.Intn(len(peers))]
 			for _, fo := range forms {
 				a := rig.FA(fo.dev, e0.addr, e0.probe.id)
@@ -640,6 +854,10 @@ func c07Seq(c *rig.Ctx) {
 				fail("notify/"+string(state)+"/entity-count", "peer%d: notification does not describe exactly one entity: %s", i, rig.JS(dd.EntityInformation))
 				continue
 			}
+			// it comes from the local NodeManagement feature, goes to the client feature that holds the subscription, and names its function
+			if why := c07NotifyHeader(d, subAddr[i]); why != "" {
+				fail("notify/"+string(state)+"/addressing", "peer%d subscribed with its feature %s: %s; header %s", i, rkKey(subAddr[i]), why, rig.JS(d.Header))
+			}
 			ed := dd.EntityInformation[0].Description
 			if c06KeyM(ed.EntityAddress.Entity) != c06Key(e.addr) || ed.EntityAddress.Device == nil || string(*ed.EntityAddress.Device) != rig.LocalAddr {
 				fail("notify/"+string(state)+"/other-entity", "peer%d: notification describes %s, expected %s of %s", i, rig.JS(ed.EntityAddress), c06Key(e.addr), rig.LocalAddr)
@@ -715,9 +933,9 @@ func c07Seq(c *rig.Ctx) {
 		// features
 		byAddr := map[string]api.FeatureLocalInterface{}
 		var want, got []string
+		want = append(want, c07E0Lines()...)
 		if e0 := local.Entity(spine.DeviceInformationAddressEntity); e0 != nil {
 			for _, f := range e0.Features() {
-				want = append(want, c07ApiLine(f))
 				byAddr[f.Address().String()] = f
 			}
 		}
@@ -778,6 +996,11 @@ func c07Seq(c *rig.Ctx) {
 	nOps := 12 + r.Intn(9)
 	for step := 0; step < nOps && !c.Failed(); step++ {
 		ps, ab := present(), absent()
+		if len(ents) > 0 && aux.Intn(10) == 0 {
+			addDuplicate(ents[aux.Intn(len(ents))])
+			kinds = append(kinds, "second-object")
+			continue
+		}
 		op := r.Intn(20)
 		switch {
 		case (op < 4 || len(ps) == 0) && len(ps) < 4: // new entity, built completely, then added
@@ -798,11 +1021,47 @@ func c07Seq(c *rig.Ctx) {
 			}
 			ents = append(ents, e)
 			trace = append(trace, fmt.Sprintf("new entity %s type %s", c06Key(addr), e.typ))
+			if aux.Intn(8) == 0 {
+				// an entity WITHOUT any feature: announced (added notification, discovery reply) like every other entity
+				for _, p := range peers {
+					p.Tap.Take()
+				}
+				local.AddEntity(e.obj)
+				e.present = true
+				emptyEnts++
+				trace = append(trace, fmt.Sprintf("AddEntity %s (an entity without features)", c06Key(addr)))
+				kinds = append(kinds, "add0")
+				checkNotify(e, model.NetworkManagementStateChangeTypeAdded)
+				checkFeatures(e)
+				notesAdd++
+				checkResolve("after AddEntity " + c06Key(e.addr))
+				continue
+			}
 			addProbe(e)
+			if aux.Intn(5) == 0 {
+				// a feature with the role "special" (functions allowed, like a server feature), built by the application itself
+				id := e.obj.NextFeatureId()
+				hand(e, id, "NextFeatureId")
+				explicitFeature(e, id, c07Types[aux.Intn(len(c07Types))], model.RoleTypeSpecial, "role special")
+				specials++
+			}
+			if aux.Intn(6) == 0 {
+				// a feature under a number the application chose itself (far above what the generator reaches in a case),
+				// added BEFORE the features GetOrAddFeature creates under the generator's numbers
+				if t, ro, ok := freshPairR(aux, e); ok {
+					id := uint(40 + aux.Intn(10))
+					hand(e, id, "chosen by the application")
+					explicitFeature(e, id, t, ro, "number chosen by the application")
+					highIds++
+				}
+			}
 			for n := 1 + r.Intn(5); n > 0; n-- {
 				if t, ro, ok := freshPair(e); ok {
 					newFeature(e, t, ro)
 				}
+			}
+			if aux.Intn(3) == 0 {
+				outOfOrderGroup(e, 2+aux.Intn(2))
 			}
 			if r.Intn(3) == 0 {
 				e.obj.AddUseCaseSupport(model.UseCaseActorTypeCEM, model.UseCaseNameTypeLimitationOfPowerConsumption, "1.0.0", "release", true, []model.UseCaseScenarioSupportType{1, 2})
@@ -865,8 +1124,12 @@ func c07Seq(c *rig.Ctx) {
 		case op < 10 && len(ents) > 0: // a further feature on an existing entity (added or not)
 			e := ents[r.Intn(len(ents))]
 			if t, ro, ok := freshPair(e); ok && len(e.feats) < 8 { // 7 + the probe feature
-				newFeature(e, t, ro)
-				kinds = append(kinds, "feature")
+				if aux.Intn(4) == 0 && outOfOrderGroup(e, 2) > 0 {
+					kinds = append(kinds, "features-out-of-order")
+				} else {
+					newFeature(e, t, ro)
+					kinds = append(kinds, "feature")
+				}
 				checkFeatures(e)
 			}
 		case op < 11 && len(ents) > 0: // asking again yields the same feature
@@ -918,16 +1181,16 @@ func c07Seq(c *rig.Ctx) {
 			p.Tap.Take()
 			var mc model.MsgCounterType
 			if subscribedNM[2] {
-				mc = p.Unsubscribe(p.NM(), rig.LNM)
+				mc = p.Unsubscribe(subAddr[2], rig.LNM)
 			} else {
-				mc = p.Subscribe(p.NM(), rig.LNM, model.FeatureTypeTypeNodeManagement)
+				mc = p.Subscribe(subAddr[2], rig.LNM, model.FeatureTypeTypeNodeManagement)
 			}
 			if res := rig.Classify(p.Tap.Take(), mc); res.Success != 1 {
 				c.Inconclusive("NodeManagement (un)subscription of peer2 was not acknowledged (%s)", res)
 				return
 			}
 			subscribedNM[2] = !subscribedNM[2]
-			trace = append(trace, fmt.Sprintf("peer2 NodeManagement subscription -> %v", subscribedNM[2]))
+			trace = append(trace, fmt.Sprintf("peer2 NodeManagement subscription (client feature %s) -> %v", rkKey(subAddr[2]), subscribedNM[2]))
 			kinds = append(kinds, "toggle")
 		default:
 			pi := r.Intn(3)
@@ -955,6 +1218,11 @@ func c07Seq(c *rig.Ctx) {
 	c.Count("features_created", int64(nf))
 	c.Count("entities_created", int64(len(ents)))
 	c.Count("re_additions_as_a_new_entity_object_with_the_same_address_and_feature_numbers", int64(twins))
+	c.Count("entities_added_without_any_feature", int64(emptyEnts))
+	c.Count("features_with_the_role_special_(with_functions)", int64(specials))
+	c.Count("feature_groups_added_out_of_the_order_of_their_numbers", int64(outOfOrder))
+	c.Count("features_under_a_number_chosen_by_the_application_added_before_generated_ones", int64(highIds))
+	c.Count("AddFeature_calls_with_a_second_object_of_an_existing_type_and_role", int64(dupAdds))
 	c.Count("FeatureByAddress_resolutions_judged_(with_and_without_device_part)", int64(resolutions))
 	c.Count("probe_reads_judged_(addressDestination_with_and_without_device_part)", int64(probeReads))
 	if len(trace) > 30 {
@@ -973,7 +1241,8 @@ func c07Conc(c *rig.Ctx) {
 	point := "GetOrAddFeature.afterMiss"
 
 	e := spine.NewEntityLocal(w.Local, model.EntityTypeTypeCEM, spine.NewAddressEntityType([]uint{1}), 4*time.Second)
-	if r.Intn(2) == 0 {
+	added := r.Intn(2) == 0
+	if added {
 		w.Local.AddEntity(e)
 	}
 	type pair struct {
@@ -1033,6 +1302,135 @@ func c07Conc(c *rig.Ctx) {
 			plan[g] = append(plan[g], i)
 		}
 	}
+	// ---- the explicit path next to GetOrAddFeature (second PRNG; the plans drawn above stay what they were)
+	//
+	// explicit(p): id := NextFeatureId(); AddFeature(NewFeatureLocal(id, p)); FeatureOfTypeAndRole(p) - what an application
+	// does that builds its features itself. (a) plan entries -2-x: the explicit path for the CONTESTED pair x, racing the
+	// GetOrAddFeature calls of the others (AddFeature is handed a second, third ... object of one type and role);
+	// (b) in one case in three the explicit path for the most contested pair is taken exactly once INSIDE the window, by
+	// the k-th goroutine that arrives between its lookup miss and the creation (an observer at the hook: what another
+	// goroutine would do at that moment; the k-1 others are released at the same moment); (c) every goroutine adds a feature of its OWN (type, role) through the explicit
+	// path, so that the AddFeature calls arrive in an order that is not the order of the numbers; in every second case
+	// goroutines 0 and 1 do that as a duel: both take their numbers, then the holder of the HIGHER number adds first.
+	aux := c10Aux(c, 71)
+	ownTypes := []model.FeatureTypeType{model.FeatureTypeTypeAlarm, model.FeatureTypeTypeDirectControl, model.FeatureTypeTypeMessaging, model.FeatureTypeTypeOperatingConstraints,
+		model.FeatureTypeTypePowerSequences, model.FeatureTypeTypeSensing, model.FeatureTypeTypeTaskManagement, model.FeatureTypeTypeThreshold}
+	own := make([]pair, G)
+	for g, ti := range aux.Perm(len(ownTypes)) {
+		own[g] = pair{ownTypes[ti], []model.RoleType{model.RoleTypeClient, model.RoleTypeServer}[aux.Intn(2)]}
+	}
+	ownAt := make([]int, G) // position in plan[g] (after the first call) at which goroutine g adds its own feature; -1: never
+	nOwn := 0
+	for g := range ownAt {
+		ownAt[g] = -1
+		if aux.Intn(4) > 0 {
+			ownAt[g] = 1 + aux.Intn(len(plan[g])-1)
+			nOwn++
+		}
+	}
+	duel := aux.Intn(2) == 0
+	if duel {
+		for g := 0; g < 2; g++ {
+			if ownAt[g] < 0 {
+				nOwn++
+			}
+			ownAt[g] = 1
+		}
+	}
+	explicitRacers := 0
+	if aux.Intn(2) == 0 {
+		for g := 0; g < G; g++ {
+			if aux.Intn(3) == 0 {
+				// replace one of the later GetOrAddFeature calls of g by the explicit path for the same pair
+				for try := 0; try < 4; try++ {
+					if i := 1 + aux.Intn(len(plan[g])-1-len(pairs)); plan[g][i] >= 0 {
+						plan[g][i] = -2 - plan[g][i]
+						explicitRacers++
+						break
+					}
+				}
+			}
+		}
+	}
+	type explRec struct {
+		p   pair
+		id  uint
+		obj api.FeatureLocalInterface
+	}
+	var expl []explRec
+	explicit := func(p pair) {
+		id := e.NextFeatureId()
+		fl := spine.NewFeatureLocal(id, e, p.t, p.ro)
+		e.AddFeature(fl)
+		got := e.FeatureOfTypeAndRole(p.t, p.ro)
+		mu.Lock()
+		expl = append(expl, explRec{p, id, fl})
+		results = append(results, res{p, got})
+		mu.Unlock()
+	}
+	inWindow := aux.Intn(3) == 0
+	var atHook atomic.Int32
+	if inWindow {
+		// the k-th arrival completes the rendezvous: k goroutines are between their lookup miss and the creation now
+		h.On(point, func(any) {
+			if int(atHook.Add(1)) == k {
+				explicit(pairs[pre])
+			}
+		})
+	}
+	duelId := [2]chan uint{make(chan uint, 1), make(chan uint, 1)}
+	higherAdded := make(chan struct{})
+	duelOrder := ""
+	ownFeature := func(g int) {
+		if !duel || g > 1 {
+			explicit(own[g])
+			return
+		}
+		id := e.NextFeatureId()
+		duelId[g] <- id
+		var other uint
+		select {
+		case other = <-duelId[1-g]:
+		case <-time.After(30 * time.Second): // watchdog only: the other party never took its number
+			other = id + 1
+		}
+		if id > other {
+			mu.Lock()
+			duelOrder = fmt.Sprintf("g%d added number %d before g%d added number %d", g, id, 1-g, other)
+			mu.Unlock()
+		} else {
+			select {
+			case <-higherAdded:
+			case <-time.After(30 * time.Second):
+			}
+		}
+		fl := spine.NewFeatureLocal(id, e, own[g].t, own[g].ro)
+		e.AddFeature(fl)
+		if id > other {
+			close(higherAdded)
+		}
+		got := e.FeatureOfTypeAndRole(own[g].t, own[g].ro)
+		mu.Lock()
+		expl = append(expl, explRec{own[g], id, fl})
+		results = append(results, res{own[g], got})
+		mu.Unlock()
+	}
+
+	// (d) storms: after its plan every goroutine waits at a spinning barrier and then all of them ask for one NEW (type,
+	// role) at the same moment, a seeded subset through the explicit path, the others through GetOrAddFeature
+	stormTypes := []model.FeatureTypeType{model.FeatureTypeTypeBill, model.FeatureTypeTypeStateInformation, model.FeatureTypeTypeSupplyCondition, model.FeatureTypeTypeTariffInformation}
+	var storms []pair
+	for _, ti := range aux.Perm(2 * len(stormTypes))[:4+aux.Intn(4)] {
+		storms = append(storms, pair{stormTypes[ti/2], []model.RoleType{model.RoleTypeClient, model.RoleTypeServer}[ti%2]})
+	}
+	stormExplicit := make([][]bool, G)
+	for g := range stormExplicit {
+		for range storms {
+			stormExplicit[g] = append(stormExplicit[g], aux.Intn(3) > 0)
+		}
+	}
+	barrier := make([]atomic.Int32, len(storms))
+
 	start := make(chan struct{})
 	ok, panicked := rig.Guard(60*time.Second, func() {
 		var wg sync.WaitGroup
@@ -1042,12 +1440,35 @@ func c07Conc(c *rig.Ctx) {
 				defer wg.Done()
 				h.Role(fmt.Sprintf("g%d", g))
 				<-start
-				for _, x := range plan[g] {
-					if x < 0 {
+				defer func() {
+					for si, sp := range storms {
+						barrier[si].Add(1)
+						for spin := 0; barrier[si].Load() < G && spin < 50_000_000; spin++ {
+							runtime.Gosched()
+						}
+						if stormExplicit[g][si] {
+							explicit(sp)
+						} else {
+							f := e.GetOrAddFeature(sp.t, sp.ro)
+							mu.Lock()
+							results = append(results, res{sp, f})
+							mu.Unlock()
+						}
+					}
+				}()
+				for i, x := range plan[g] {
+					if i == ownAt[g] {
+						ownFeature(g)
+					}
+					if x == -1 {
 						id := e.NextFeatureId()
 						mu.Lock()
 						ids = append(ids, id)
 						mu.Unlock()
+						continue
+					}
+					if x < -1 {
+						explicit(pairs[-2-x])
 						continue
 					}
 					f := e.GetOrAddFeature(pairs[x].t, pairs[x].ro)
@@ -1071,7 +1492,9 @@ func c07Conc(c *rig.Ctx) {
 	forced := h.Forced(point)
 	tr := h.Trace()
 
-	desc := fmt.Sprintf("pairs=%v existing-before=%d rendezvous k=%d forced=%v", pairs, pre, k, forced)
+	desc := fmt.Sprintf("pairs=%v existing-before=%d rendezvous k=%d forced=%v; explicit path (NextFeatureId+NewFeatureLocal+AddFeature): %d goroutines add a feature of their own (type, role)%s, %d calls for a contested pair%s; then %d storms (all 8 goroutines ask for one new pair at once, explicit path or GetOrAddFeature)",
+		pairs, pre, k, forced, nOwn, map[bool]string{true: " (goroutines 0 and 1: higher number first: " + duelOrder + ")", false: ""}[duel], explicitRacers,
+		map[bool]string{true: ", one more by the k-th goroutine inside the window", false: ""}[inWindow], len(storms))
 	// same object for the same (type, role) to all callers
 	first := map[pair]api.FeatureLocalInterface{}
 	for p, f := range before {
@@ -1124,8 +1547,34 @@ func c07Conc(c *rig.Ctx) {
 			c.Violate("conc/two-features-of-one-type-and-role", "%s: Features() holds %d features %s/%s", desc, n, p.t, p.ro)
 		}
 	}
-	if len(fs) != len(pairs) {
-		c.Violate("conc/feature-count", "%s: Features() holds %d features for %d distinct (type, role) pairs", desc, len(fs), len(pairs))
+	if len(fs) != len(pairs)+nOwn+len(storms) {
+		c.Violate("conc/feature-count", "%s: Features() holds %d features for %d distinct (type, role) pairs", desc, len(fs), len(pairs)+nOwn+len(storms))
+	}
+	// every feature of the entity resolves through the device as well, with and without device part (if the entity is part of it)
+	if added {
+		for _, f := range fs {
+			for _, a := range []*model.FeatureAddressType{f.Address(), rkStripDevice(f.Address())} {
+				c.Events(1)
+				if got := w.Local.FeatureByAddress(a); got != f {
+					c.Violate("conc/announced-address-does-not-resolve", "%s: DeviceLocal.FeatureByAddress(%s) does not return the feature %s/%s carrying that number (features in the order of Features(): %s)", desc, rkKey(a), f.Type(), f.Role(), c07Numbers(fs))
+					break
+				}
+			}
+		}
+	}
+	// the explicit path: a number taken for an object that AddFeature did not keep is not the number of another feature
+	inEntity := map[api.FeatureLocalInterface]bool{}
+	for _, f := range fs {
+		inEntity[f] = true
+	}
+	for _, x := range expl {
+		c.Events(1)
+		if prev, dup := seenId[x.id]; dup && !inEntity[x.obj] {
+			c.Violate("conc/feature-number-handed-out-twice", "%s: NextFeatureId returned %d for a second object of %s/%s (not kept by AddFeature); the number is also used by %s", desc, x.id, x.p.t, x.p.ro, prev)
+		}
+		if !inEntity[x.obj] {
+			seenId[x.id] = "NextFeatureId (explicit path, object not kept)"
+		}
 	}
 	for _, id := range ids {
 		c.Events(1)
@@ -1173,6 +1622,37 @@ func c07Conc(c *rig.Ctx) {
 	c.Shape(fmt.Sprintf("k=%d pairs=%d pre=%d order=%x", k, nPairs, pre, hh.Sum64()))
 	c.NonTrivial(same)
 	c.Sample(map[string]any{"config": desc, "arrivals_at_hook": arrivals, "features_after": len(fs), "next_feature_ids": ids})
+}
+
+// c07LineFields splits a line of c07Line into its description and its operations part.
+func c07LineFields(l string) (desc, ops string) {
+	i, j := strings.Index(l, " desc="), strings.LastIndex(l, " ops={")
+	if i < 0 || j < i {
+		return l, l
+	}
+	return l[i+len(" desc=") : j], l[j+len(" ops="):]
+}
+
+// c07NotifyHeader judges the addressing of an entity notification: source = the local NodeManagement feature,
+// destination = the subscribed client feature, cmd.function = nodeManagementDetailedDiscoveryData.
+func c07NotifyHeader(d model.DatagramType, client *model.FeatureAddressType) string {
+	switch {
+	case d.Header.AddressSource == nil || d.Header.AddressSource.String() != rig.LNM.String():
+		return "addressSource is not the local NodeManagement feature " + rkKey(rig.LNM)
+	case d.Header.AddressDestination == nil || d.Header.AddressDestination.String() != client.String():
+		return "addressDestination is not the subscribed client feature"
+	case len(d.Payload.Cmd) != 1 || d.Payload.Cmd[0].Function == nil || *d.Payload.Cmd[0].Function != model.FunctionTypeNodeManagementDetailedDiscoveryData:
+		return "cmd.function is not nodeManagementDetailedDiscoveryData"
+	}
+	return ""
+}
+
+func c07Numbers(fs []api.FeatureLocalInterface) string {
+	var ns []string
+	for _, f := range fs {
+		ns = append(ns, fmt.Sprint(uint(*f.Address().Feature)))
+	}
+	return strings.Join(ns, ",")
 }
 
 // ---- discovery reads concurrent with entity removal / addition
@@ -1739,11 +2219,7 @@ func c07Window(c *rig.Ctx) {
 	// reference rendering of the device tree
 	wantTree := func() (wantE, wantF []string) {
 		wantE = append(wantE, "[0]")
-		if e0 := local.Entity(spine.DeviceInformationAddressEntity); e0 != nil {
-			for _, f := range e0.Features() {
-				wantF = append(wantF, c07ApiLine(f))
-			}
-		}
+		wantF = append(wantF, c07E0Lines()...)
 		for _, e := range ents {
 			if e.present {
 				wantE = append(wantE, e.key)
@@ -1953,4 +2429,916 @@ func c07Window(c *rig.Ctx) {
 	c.Count("window_reactions_judged:added", int64(winAdded))
 	c.Count("window_reactions_judged:removed", int64(winRemoved))
 	c.Sample(map[string]any{"peers": mask, "history": trace, "operation_kinds": kinds, "windows_added": winAdded, "windows_removed": winRemoved})
+}
+
+// ---- AddEntity / RemoveEntity of DIFFERENT entities at the same time
+
+// c07StageWriter is the connection writer of the peer whose server features the local client features subscribe and
+// bind to. RemoveEntity unsubscribes / unbinds them (one call per subscription / binding) while it cleans the entity
+// up. Free flavour: the writer yields the processor a few times per write (a connection that is not instantaneous).
+// Staged flavour: the first subscription / binding delete call whose client address lies in the entity `key` is parked
+// (bounded by max) until the harness releases it: the other calls of the round run and return in between.
+type c07StageWriter struct {
+	tap   *rig.Tap
+	max   time.Duration
+	yield int
+
+	mu      sync.Mutex
+	key     string // "" = not armed
+	parked  chan struct{}
+	release chan struct{}
+	expired bool
+}
+
+func (x *c07StageWriter) arm(key string) (parked, release chan struct{}) {
+	x.mu.Lock()
+	defer x.mu.Unlock()
+	x.key, x.parked, x.release, x.expired = key, make(chan struct{}), make(chan struct{}), false
+	return x.parked, x.release
+}
+
+func (x *c07StageWriter) disarm() (expired bool) {
+	x.mu.Lock()
+	defer x.mu.Unlock()
+	x.key = ""
+	return x.expired
+}
+
+func (x *c07StageWriter) WriteShipMessageWithPayload(m []byte) {
+	x.mu.Lock()
+	key, parked, release := x.key, x.parked, x.release
+	x.mu.Unlock()
+	if key != "" {
+		var d model.Datagram
+		if json.Unmarshal(m, &d) == nil && len(d.Datagram.Payload.Cmd) == 1 {
+			cmd := d.Datagram.Payload.Cmd[0]
+			var cl *model.FeatureAddressType
+			if cmd.NodeManagementSubscriptionDeleteCall != nil && cmd.NodeManagementSubscriptionDeleteCall.SubscriptionDelete != nil {
+				cl = cmd.NodeManagementSubscriptionDeleteCall.SubscriptionDelete.ClientAddress
+			}
+			if cmd.NodeManagementBindingDeleteCall != nil && cmd.NodeManagementBindingDeleteCall.BindingDelete != nil {
+				cl = cmd.NodeManagementBindingDeleteCall.BindingDelete.ClientAddress
+			}
+			if cl != nil && c06KeyM(cl.Entity) == key {
+				x.mu.Lock()
+				mine := x.key == key
+				if mine {
+					x.key = ""
+				}
+				x.mu.Unlock()
+				if mine {
+					close(parked)
+					select {
+					case <-release:
+					case <-time.After(x.max):
+						x.mu.Lock()
+						x.expired = true
+						x.mu.Unlock()
+					}
+				}
+			}
+		}
+	} else {
+		for i := 0; i < x.yield; i++ {
+			runtime.Gosched()
+		}
+	}
+	x.tap.WriteShipMessageWithPayload(m)
+}
+
+// c07EntConc: several goroutines add and remove DIFFERENT entities of one local device at the same time. Operations on
+// different entity addresses commute, so at the quiescent point after every round the device is what the last
+// acknowledged (returned) call per entity address made it: Entities(), the detailed discovery reply and
+// FeatureByAddress agree with that, and every peer subscribed to NodeManagement got exactly one "added" (with the
+// features) resp. "removed" notification per call.
+func c07EntConc(c *rig.Ctx) {
+	r := c.Rand
+	w := rig.NewWorld(c.Tag())
+	defer w.Close()
+	local := w.Local
+
+	var trace []string
+	fail := func(sig, format string, a ...any) {
+		c.Violate(sig, "%s\n history so far (last is the failing round):\n   %s", fmt.Sprintf(format, a...), strings.Join(trace, "\n   "))
+		c.Witness(map[string]any{"history": trace})
+	}
+
+	// peers: 0 and 1 offer server features (the local client features subscribe / bind to them); peer 0 has the staged /
+	// yielding writer. A seeded subset (at least one) of the 2-3 peers is subscribed to NodeManagement.
+	nPeers := 2 + r.Intn(2)
+	sw := &c07StageWriter{max: 15 * time.Second, yield: r.Intn(4)}
+	srvFeats := []rig.FS{rig.NMFS,
+		{Ent: []uint{1}, Id: 1, Typ: model.FeatureTypeTypeLoadControl, Role: model.RoleTypeServer},
+		{Ent: []uint{1}, Id: 2, Typ: model.FeatureTypeTypeMeasurement, Role: model.RoleTypeServer},
+		{Ent: []uint{2}, Id: 1, Typ: model.FeatureTypeTypeLoadControl, Role: model.RoleTypeServer},
+		{Ent: []uint{1, 1}, Id: 1, Typ: model.FeatureTypeTypeMeasurement, Role: model.RoleTypeServer}}
+	var peers []*rig.Peer
+	subscribed := make([]bool, nPeers)
+	forcedSub := r.Intn(nPeers)
+	mask := ""
+	for i := 0; i < nPeers; i++ {
+		var p *rig.Peer
+		if i == 0 {
+			p = xAddPeer(w, i, func(tap *rig.Tap) xWriter { sw.tap = tap; return sw })
+		} else {
+			p = w.AddPeer(i)
+		}
+		p.Ctr = uint64(i+1) * 100000
+		p.Announce(srvFeats)
+		subscribed[i] = i == forcedSub || r.Intn(3) > 0
+		if subscribed[i] {
+			mc := p.Subscribe(p.NM(), rig.LNM, model.FeatureTypeTypeNodeManagement)
+			if res := rig.Classify(p.Tap.Take(), mc); res.Success != 1 {
+				c.Inconclusive("setup: NodeManagement subscription of peer%d was not acknowledged (%s)", i, res)
+				return
+			}
+			mask += "S"
+		} else {
+			mask += "-"
+		}
+		peers = append(peers, p)
+	}
+	trace = append(trace, fmt.Sprintf("%d peers (S = subscribed to NodeManagement): %s; peer0's writer yields %d times per write", nPeers, mask, sw.yield))
+
+	// the entities: every one has a LoadControl and a Measurement client feature (they subscribe / bind to the peers'
+	// server features before a removal, so that the clean-up inside RemoveEntity has calls to send), 1-3 server
+	// features with functions, and (two in three) a use case
+	type slot struct {
+		obj     *spine.EntityLocal
+		addr    []uint
+		key     string
+		typ     model.EntityTypeType
+		feats   []*c07RF
+		lines   []string
+		cli     []api.FeatureLocalInterface
+		useCase bool
+		present bool
+	}
+	nSlots := 4 + r.Intn(3)
+	var slots []*slot
+	for i := 0; i < nSlots; i++ {
+		sl := &slot{addr: c07EntDom[i], key: c06Key(c07EntDom[i]), typ: c07EntTypes[r.Intn(len(c07EntTypes))], useCase: r.Intn(3) > 0}
+		sl.obj = spine.NewEntityLocal(local, sl.typ, spine.NewAddressEntityType(sl.addr), 4*time.Second)
+		re := &c07RE{addr: sl.addr}
+		add := func(t model.FeatureTypeType, ro model.RoleType) *c07RF {
+			f := &c07RF{typ: t, role: ro, ops: map[model.FunctionType][2]bool{}}
+			f.obj = sl.obj.GetOrAddFeature(t, ro)
+			f.id = uint(*f.obj.Address().Feature)
+			s := fmt.Sprintf("%s-%d", sl.key, f.id)
+			f.obj.SetDescriptionString(s)
+			f.desc = &s
+			if ro == model.RoleTypeServer {
+				for n, fi := range c06FnsOf(t) {
+					if n >= 2 || fi.Fn == model.FunctionTypeDeviceDiagnosisHeartbeatData {
+						break
+					}
+					rd, wr := r.Intn(3) > 0, r.Intn(2) == 0
+					f.obj.AddFunctionType(fi.Fn, rd, wr)
+					f.ops[fi.Fn] = [2]bool{rd, wr}
+				}
+			}
+			sl.feats = append(sl.feats, f)
+			sl.lines = append(sl.lines, f.line(re))
+			return f
+		}
+		sl.cli = append(sl.cli, add(model.FeatureTypeTypeLoadControl, model.RoleTypeClient).obj, add(model.FeatureTypeTypeMeasurement, model.RoleTypeClient).obj)
+		for _, ti := range r.Perm(len(c07Types))[:1+r.Intn(3)] {
+			add(c07Types[ti], model.RoleTypeServer)
+		}
+		sort.Strings(sl.lines)
+		slots = append(slots, sl)
+		if r.Intn(2) == 0 {
+			local.AddEntity(sl.obj)
+			sl.present = true
+		}
+	}
+	for _, p := range peers {
+		p.Tap.Take()
+	}
+	{
+		var ks []string
+		for _, sl := range slots {
+			ks = append(ks, fmt.Sprintf("%s(%d features, present=%v)", sl.key, len(sl.feats), sl.present))
+		}
+		trace = append(trace, "entities: "+strings.Join(ks, " "))
+	}
+	// prepare lets the client features of sl subscribe and bind to server features of peer pi
+	prepare := func(sl *slot, pi int) int {
+		p := peers[pi]
+		n := 0
+		for _, sf := range srvFeats[1:] {
+			for _, cf := range sl.cli {
+				if cf.Type() != sf.Typ {
+					continue
+				}
+				ra := rig.FA(p.Addr, sf.Ent, sf.Id)
+				if _, err := cf.SubscribeToRemote(ra); err == nil {
+					n++
+				}
+				if _, err := cf.BindToRemote(ra); err == nil {
+					n++
+				}
+			}
+		}
+		return n
+	}
+
+	// answer lets a peer acknowledge the calls it received (an unanswered request stays in the sender's cache of open
+	// requests, and an identical later call - the same entity removed a second time - would not be sent again)
+	answer := func(p *rig.Peer, outs []model.DatagramType) {
+		for _, d := range outs {
+			if d.Header.CmdClassifier != nil && *d.Header.CmdClassifier == model.CmdClassifierTypeCall && d.Header.MsgCounter != nil {
+				p.Send(model.CmdClassifierTypeResult, p.NM(), rig.LNM, false, d.Header.MsgCounter, model.CmdType{ResultData: &model.ResultDataType{ErrorNumber: util.Ptr(model.ErrorNumberType(0))}})
+			}
+		}
+	}
+	type opRec struct {
+		sl     *slot
+		add    bool
+		staged bool // the call whose clean-up is parked while the others run
+	}
+	rounds, stagedForced, stagedNot, opsDone := 0, 0, 0, 0
+	var kinds []string
+	nRounds := 4 + r.Intn(4)
+	for round := 0; round < nRounds && !c.Failed(); round++ {
+		// the operations of this round: 2-4 different entities, each toggled (present -> RemoveEntity, absent -> AddEntity);
+		// one goroutine per entity, in one round in three a goroutine toggles its entity twice (the last call decides)
+		perm := r.Perm(nSlots)
+		m := 2 + r.Intn(3)
+		if m > nSlots {
+			m = nSlots
+		}
+		var ops [][]opRec
+		staged := r.Intn(2) == 0
+		var stagedOp *opRec
+		for _, si := range perm[:m] {
+			sl := slots[si]
+			seq := []opRec{{sl: sl, add: !sl.present}}
+			if !staged && r.Intn(3) == 0 {
+				seq = append(seq, opRec{sl: sl, add: sl.present})
+			}
+			ops = append(ops, seq)
+		}
+		if staged {
+			// the staged call is a RemoveEntity (of an entity that is present); without one the round is a free one
+			staged = false
+			for i := range ops {
+				if !ops[i][0].add {
+					ops[i][0].staged = true
+					stagedOp = &ops[i][0]
+					staged = true
+					break
+				}
+			}
+		}
+		// preparation (sequential): use case and client-side subscriptions / bindings of the entities about to be removed
+		for i := range ops {
+			for _, o := range ops[i] {
+				if o.add {
+					continue
+				}
+				if o.sl.useCase {
+					o.sl.obj.AddUseCaseSupport(model.UseCaseActorTypeCEM, model.UseCaseNameTypeLimitationOfPowerConsumption, "1.0.0", "release", true, []model.UseCaseScenarioSupportType{1, 2})
+				}
+				if staged && !o.staged {
+					continue // its clean-up must not need the connection on which the staged call is parked
+				}
+				if o.staged {
+					prepare(o.sl, 0)
+				} else {
+					prepare(o.sl, r.Intn(2))
+				}
+				break
+			}
+		}
+		for _, p := range peers {
+			answer(p, p.Tap.Take())
+			p.Tap.Take()
+		}
+		var rd []string
+		for i := range ops {
+			for _, o := range ops[i] {
+				s := "RemoveEntity " + o.sl.key
+				if o.add {
+					s = "AddEntity " + o.sl.key
+				}
+				if o.staged {
+					s += " (staged: its first unsubscribe/unbind call to peer0 stays parked in the connection writer until the other calls of the round have returned)"
+				}
+				rd = append(rd, fmt.Sprintf("g%d: %s", i, s))
+			}
+		}
+		trace = append(trace, fmt.Sprintf("round %d, concurrently: %s", round, strings.Join(rd, "; ")))
+
+		call := func(o opRec) {
+			if o.add {
+				local.AddEntity(o.sl.obj)
+			} else {
+				local.RemoveEntity(o.sl.obj)
+			}
+		}
+		var parked, release chan struct{}
+		if staged {
+			parked, release = sw.arm(stagedOp.sl.key)
+		}
+		var arrive atomic.Int32
+		stagedDone := make(chan struct{})
+		ok, panicked := rig.Guard(90*time.Second, func() {
+			var wg, others sync.WaitGroup
+			for i := range ops {
+				wg.Add(1)
+				isStaged := staged && ops[i][0].staged
+				if staged && !isStaged {
+					others.Add(1)
+				}
+				go func(seq []opRec, isStaged bool) {
+					defer wg.Done()
+					switch {
+					case !staged:
+						arrive.Add(1)
+						for spin := 0; int(arrive.Load()) < len(ops) && spin < 50_000_000; spin++ {
+							runtime.Gosched()
+						}
+					case isStaged:
+						defer close(stagedDone)
+					default:
+						defer others.Done()
+						select { // the others start once the staged call is inside its clean-up (or, watchdog, has returned)
+						case <-parked:
+						case <-stagedDone:
+						}
+					}
+					for _, o := range seq {
+						call(o)
+					}
+				}(ops[i], isStaged)
+			}
+			if staged {
+				others.Wait()
+				close(release)
+			}
+			wg.Wait()
+		})
+		if panicked != "" {
+			fail("entity-conc/panic", "%s", panicked)
+			return
+		}
+		if !ok {
+			c.Inconclusive("round %d: concurrent AddEntity / RemoveEntity calls did not return within 90s", round)
+			return
+		}
+		if staged {
+			forcedNow := false
+			select {
+			case <-parked:
+				forcedNow = true
+			default:
+			}
+			if sw.disarm() {
+				c.Count("staged_rounds_released_by_the_watchdog", 1)
+				forcedNow = false
+			}
+			if forcedNow {
+				stagedForced++
+			} else {
+				stagedNot++
+			}
+		}
+		rounds++
+		// the last acknowledged call per entity address decides
+		changed := map[*slot]bool{}
+		for i := range ops {
+			for _, o := range ops[i] {
+				o.sl.present = o.add
+				changed[o.sl] = true
+				opsDone++
+			}
+		}
+		kinds = append(kinds, fmt.Sprintf("%d%v", len(ops), staged))
+
+		// (1) Entities()
+		var wantE, gotE []string
+		wantE = append(wantE, "[0]")
+		for _, sl := range slots {
+			if sl.present {
+				wantE = append(wantE, sl.key)
+			}
+		}
+		for _, e := range local.Entities() {
+			gotE = append(gotE, c06KeyM(e.Address().Entity))
+		}
+		sort.Strings(wantE)
+		sort.Strings(gotE)
+		c.Events(int64(len(gotE)))
+		lostOrBack := func(got []string) string {
+			g := map[string]int{}
+			for _, k := range got {
+				g[k]++
+			}
+			for _, sl := range slots {
+				switch {
+				case sl.present && g[sl.key] == 0 && changed[sl]:
+					return "entity-added-in-this-round-is-missing"
+				case sl.present && g[sl.key] == 0:
+					return "untouched-entity-is-missing"
+				case !sl.present && g[sl.key] > 0 && changed[sl]:
+					return "entity-removed-in-this-round-is-still-there"
+				case !sl.present && g[sl.key] > 0:
+					return "entity-removed-earlier-is-back"
+				case g[sl.key] > 1:
+					return "entity-listed-twice"
+				}
+			}
+			return "other"
+		}
+		if strings.Join(wantE, " ") != strings.Join(gotE, " ") {
+			fail("entity-conc/entities/"+lostOrBack(gotE), "after all calls of round %d returned, Entities() holds %v; the last acknowledged call per entity address leaves %v", round, gotE, wantE)
+			break
+		}
+		for _, sl := range slots {
+			got := local.Entity(spine.NewAddressEntityType(sl.addr))
+			if sl.present && got != api.EntityLocalInterface(sl.obj) || !sl.present && got != nil {
+				fail("entity-conc/entity-lookup", "after round %d: Entity(%s) = %v, present=%v", round, sl.key, got != nil, sl.present)
+			}
+		}
+		// (2) the discovery reply, read by a seeded peer
+		p := peers[r.Intn(nPeers)]
+		mc := p.Send(model.CmdClassifierTypeRead, p.NM(), rig.LNM, false, nil, model.CmdType{NodeManagementDetailedDiscoveryData: &model.NodeManagementDetailedDiscoveryDataType{}})
+		// (the notifications of the round are in the taps as well: Classify picks the reply by its reference)
+		var outsAll [][]model.DatagramType
+		for _, q := range peers {
+			outsAll = append(outsAll, q.Tap.Take())
+		}
+		var pOuts []model.DatagramType
+		for i, q := range peers {
+			if q == p {
+				pOuts = outsAll[i]
+			}
+			answer(q, outsAll[i])
+			q.Tap.Take()
+		}
+		res := rig.Classify(pOuts, mc)
+		var dd *model.NodeManagementDetailedDiscoveryDataType
+		if res.Replies == 1 && res.Errors == 0 && len(res.All) == 1 && len(res.All[0].Payload.Cmd) == 1 {
+			dd = res.All[0].Payload.Cmd[0].NodeManagementDetailedDiscoveryData
+		}
+		if dd == nil {
+			fail("entity-conc/read/not-one-reply", "discovery read after round %d: %s", round, c07RespClass(res))
+			break
+		}
+		var gotR []string
+		gotF := map[string][]string{}
+		for _, ei := range dd.EntityInformation {
+			if ei.Description != nil && ei.Description.EntityAddress != nil {
+				gotR = append(gotR, c06KeyM(ei.Description.EntityAddress.Entity))
+			}
+		}
+		for _, fi := range dd.FeatureInformation {
+			if l, okL := c07InfoLine(fi.Description); okL {
+				k := c06KeyM(fi.Description.FeatureAddress.Entity)
+				gotF[k] = append(gotF[k], l)
+			} else {
+				fail("entity-conc/read/incomplete-feature-description", "%s", l)
+			}
+		}
+		sort.Strings(gotR)
+		c.Events(int64(len(gotR) + len(dd.FeatureInformation)))
+		if strings.Join(wantE, " ") != strings.Join(gotR, " ") {
+			fail("entity-conc/read/"+lostOrBack(gotR), "the discovery reply after round %d lists the entities %v; the last acknowledged call per entity address leaves %v", round, gotR, wantE)
+			break
+		}
+		{
+			fs, want0 := gotF["[0]"], c07E0Lines()
+			sort.Strings(fs)
+			sort.Strings(want0)
+			if strings.Join(fs, "\n") != strings.Join(want0, "\n") {
+				fail("entity-conc/read/features/"+c07DiffSig(want0, fs), "the discovery reply after round %d announces entity [0] with\n%s", round, c06Diff(want0, fs))
+			}
+		}
+		for _, sl := range slots {
+			if !sl.present {
+				continue
+			}
+			fs := gotF[sl.key]
+			sort.Strings(fs)
+			if strings.Join(fs, "\n") != strings.Join(sl.lines, "\n") {
+				fail("entity-conc/read/features/"+c07DiffSig(sl.lines, fs), "the discovery reply after round %d announces entity %s with\n%s", round, sl.key, c06Diff(sl.lines, fs))
+			}
+		}
+		// (3) every feature address resolves to the feature (present entity) or to nothing (absent entity), in both forms
+		for _, sl := range slots {
+			for _, f := range sl.feats {
+				for _, dev := range []string{rig.LocalAddr, ""} {
+					a := rig.FA(dev, sl.addr, f.id)
+					got := local.FeatureByAddress(a)
+					c.Events(1)
+					switch {
+					case sl.present && got != f.obj:
+						fail("entity-conc/resolve/announced-address-does-not-resolve", "after round %d: FeatureByAddress(%s) does not return the feature; entity %s is part of the device (last acknowledged call: AddEntity)", round, rkKey(a), sl.key)
+					case !sl.present && !rig.IsNil(got):
+						fail("entity-conc/resolve/address-of-a-removed-entity-still-resolves", "after round %d: FeatureByAddress(%s) returns a feature; the last acknowledged call for %s is RemoveEntity", round, rkKey(a), sl.key)
+					}
+				}
+			}
+			if c.Failed() {
+				break
+			}
+		}
+		// (4) one notification per call for every subscribed peer, none for the others
+		for i := range peers {
+			var got []string
+			for _, d := range outsAll[i] {
+				if len(d.Payload.Cmd) != 1 || d.Payload.Cmd[0].NodeManagementDetailedDiscoveryData == nil || d.Header.CmdClassifier == nil || *d.Header.CmdClassifier != model.CmdClassifierTypeNotify {
+					continue
+				}
+				nd := d.Payload.Cmd[0].NodeManagementDetailedDiscoveryData
+				fp, _ := d.Payload.Cmd[0].ExtractFilter()
+				if fp == nil || fp.CmdControl == nil || fp.CmdControl.Partial == nil {
+					fail("entity-conc/notify/not-a-partial-notify", "peer%d: %s", i, rig.JS(d))
+					continue
+				}
+				if len(nd.EntityInformation) != 1 || nd.EntityInformation[0].Description == nil || nd.EntityInformation[0].Description.EntityAddress == nil || nd.EntityInformation[0].Description.LastStateChange == nil {
+					fail("entity-conc/notify/entity-count", "peer%d: notification does not describe exactly one entity with its state change: %s", i, rig.JS(nd.EntityInformation))
+					continue
+				}
+				ed := nd.EntityInformation[0].Description
+				k := c06KeyM(ed.EntityAddress.Entity)
+				got = append(got, fmt.Sprintf("%s %s", *ed.LastStateChange, k))
+				if why := c07NotifyHeader(d, peers[i].NM()); why != "" {
+					fail("entity-conc/notify/addressing", "peer%d subscribed with its feature [0]/0: %s; header %s", i, why, rig.JS(d.Header))
+				}
+				if *ed.LastStateChange == model.NetworkManagementStateChangeTypeAdded {
+					var fl []string
+					for _, fi := range nd.FeatureInformation {
+						l, _ := c07InfoLine(fi.Description)
+						fl = append(fl, l)
+					}
+					sort.Strings(fl)
+					for _, sl := range slots {
+						if sl.key == k && strings.Join(fl, "\n") != strings.Join(sl.lines, "\n") {
+							fail("entity-conc/notify/added/features/"+c07DiffSig(sl.lines, fl), "peer%d: the 'added %s' notification of round %d announces\n%s", i, k, round, c06Diff(sl.lines, fl))
+						}
+					}
+				}
+			}
+			c.Events(int64(len(got)))
+			var want []string
+			if subscribed[i] {
+				for j := range ops {
+					for _, o := range ops[j] {
+						st := model.NetworkManagementStateChangeTypeRemoved
+						if o.add {
+							st = model.NetworkManagementStateChangeTypeAdded
+						}
+						want = append(want, fmt.Sprintf("%s %s", st, o.sl.key))
+					}
+				}
+			}
+			// per entity address the notifications follow the order of the calls (one goroutine per address); across addresses any order
+			perAddr := func(xs []string) map[string]string {
+				m := map[string]string{}
+				for _, x := range xs {
+					k := x[strings.Index(x, " ")+1:]
+					m[k] += x[:strings.Index(x, " ")] + ","
+				}
+				return m
+			}
+			wm, gm := perAddr(want), perAddr(got)
+			if !reflect.DeepEqual(wm, gm) {
+				sig := "entity-conc/notify/subscribed-peer-not-one-per-call"
+				if !subscribed[i] {
+					sig = "entity-conc/notify/sent-to-unsubscribed-peer"
+				}
+				sort.Strings(want)
+				sort.Strings(got)
+				fail(sig, "round %d: peer%d (subscribed to NodeManagement: %v) received the entity notifications %v; the calls of the round were %v", round, i, subscribed[i], got, want)
+			}
+		}
+	}
+	h := fnv.New64a()
+	h.Write([]byte(strings.Join(kinds, ";")))
+	c.Shape(fmt.Sprintf("%s slots=%d %x forced=%d", mask, nSlots, h.Sum64(), stagedForced))
+	c.NonTrivial(rounds >= 3 && stagedForced >= 1)
+	c.Count("rounds_judged", int64(rounds))
+	c.Count("concurrent_entity_calls", int64(opsDone))
+	c.Count("staged_rounds:other_calls_ran_inside_the_clean-up_of_a_RemoveEntity", int64(stagedForced))
+	c.Count("staged_rounds:not_forced", int64(stagedNot))
+	if len(trace) > 14 {
+		trace = trace[:14]
+	}
+	c.Sample(map[string]any{"history": trace, "peers": mask})
+}
+
+// ---- discovery reads concurrent with feature-level changes
+
+// c07ReadFeat: "at every moment the reply lists ... its features with their type, role, description and the read/write
+// operations of every function added to them". One goroutine (a peer) sends detailed discovery reads while the
+// application adds functions (AddFunctionType), changes descriptions (SetDescriptionString) and creates further
+// features (GetOrAddFeature) on entities that are part of the device. Every call is stamped with the rig's logical
+// clock; the harness keeps, per feature, the sequence of its renderings (version k = after k calls concerning it).
+// Every announced feature line must equal one of the versions that were current between the call and the return of
+// that read; a read after quiescence must equal the final tree.
+func c07ReadFeat(c *rig.Ctx) {
+	r := c.Rand
+	w := rig.NewWorld(c.Tag())
+	defer w.Close()
+	local := w.Local
+
+	type feat struct {
+		obj      api.FeatureLocalInterface
+		addr     string
+		ent      *spine.EntityLocal
+		entAddr  []uint
+		typ      model.FeatureTypeType
+		desc     *string
+		ops      map[model.FunctionType][2]bool
+		versions []string // "" = the feature does not exist (yet)
+		calls    [][2]int64
+	}
+	render := func(f *feat) string {
+		return c07Line(f.addr, f.typ, model.RoleTypeServer, f.desc, f.ops)
+	}
+	var feats []*feat
+	var ents []*spine.EntityLocal
+	nEnt := 2 + r.Intn(2)
+	used := map[string]bool{}
+	for i := 0; i < nEnt; i++ {
+		addr := []uint{uint(i + 1)}
+		e := spine.NewEntityLocal(local, c07EntTypes[r.Intn(len(c07EntTypes))], spine.NewAddressEntityType(addr), 4*time.Second)
+		for _, ti := range r.Perm(len(c07Types))[:2+r.Intn(2)] {
+			t := c07Types[ti]
+			fo := e.GetOrAddFeature(t, model.RoleTypeServer)
+			s := fmt.Sprintf("initial-%d-%d", i, ti)
+			fo.SetDescriptionString(s)
+			f := &feat{obj: fo, addr: fo.Address().String(), ent: e, entAddr: addr, typ: t, desc: &s, ops: map[model.FunctionType][2]bool{}}
+			f.versions = []string{render(f)}
+			feats = append(feats, f)
+			used[fmt.Sprintf("%d/%s", i, t)] = true
+		}
+		local.AddEntity(e)
+		ents = append(ents, e)
+	}
+	p := w.AddPeer(0)
+	p.Ctr = 100000
+	p.Announce([]rig.FS{rig.NMFS})
+	p.Tap.Take()
+
+	// the plan of the application (drawn beforehand)
+	type op struct {
+		kind string // fn | desc | feature
+		f    *feat
+		fn   model.FunctionType
+		rd   bool
+		wr   bool
+		s    string
+		ei   int
+	}
+	var plan []op
+	nOps := 40 + r.Intn(60)
+	planned := map[*feat]map[model.FunctionType]bool{}
+	var pending []*feat // features the plan creates (not yet in feats' initial set)
+	for len(plan) < nOps {
+		switch k := r.Intn(10); {
+		case k < 6: // a further function
+			all := append(append([]*feat(nil), feats...), pending...)
+			f := all[r.Intn(len(all))]
+			var cand []model.FunctionType
+			for _, fi := range c06FnsOf(f.typ) {
+				if fi.Fn != model.FunctionTypeDeviceDiagnosisHeartbeatData && !planned[f][fi.Fn] {
+					cand = append(cand, fi.Fn)
+				}
+			}
+			if len(cand) == 0 {
+				plan = append(plan, op{kind: "desc", f: f, s: fmt.Sprintf("desc-%d", len(plan))})
+				continue
+			}
+			fn := cand[r.Intn(len(cand))]
+			if planned[f] == nil {
+				planned[f] = map[model.FunctionType]bool{}
+			}
+			planned[f][fn] = true
+			plan = append(plan, op{kind: "fn", f: f, fn: fn, rd: r.Intn(3) > 0, wr: r.Intn(2) == 0})
+		case k < 9:
+			all := append(append([]*feat(nil), feats...), pending...)
+			plan = append(plan, op{kind: "desc", f: all[r.Intn(len(all))], s: fmt.Sprintf("desc-%d", len(plan))})
+		default: // a further feature on an entity of the device
+			ei := r.Intn(nEnt)
+			t := c07Types[r.Intn(len(c07Types))]
+			if used[fmt.Sprintf("%d/%s", ei, t)] {
+				continue
+			}
+			used[fmt.Sprintf("%d/%s", ei, t)] = true
+			f := &feat{ent: ents[ei], entAddr: []uint{uint(ei + 1)}, typ: t, ops: map[model.FunctionType][2]bool{}, versions: []string{""}}
+			pending = append(pending, f)
+			plan = append(plan, op{kind: "feature", f: f, ei: ei})
+		}
+	}
+	all := append(append([]*feat(nil), feats...), pending...)
+	delays := make([]int, len(plan))
+	for i := range delays {
+		delays[i] = r.Intn(120)
+	}
+
+	const nReads = 30
+	type readRec struct {
+		start, end int64
+		mc         model.MsgCounterType
+	}
+	reads := make([]readRec, nReads)
+	startC := make(chan struct{})
+	var readsSent atomic.Int32
+	ok, panicked := rig.Guard(60*time.Second, func() {
+		var wg sync.WaitGroup
+		wg.Add(2)
+		go func() { // the application
+			defer wg.Done()
+			<-startC
+			for oi, o := range plan {
+				// pacing only: the calls are spread over the reads (call oi waits until read oi*nReads/len(plan) has been sent)
+				for spin, target := 0, int32(oi*nReads/len(plan)); readsSent.Load() < target && spin < 2_000_000; spin++ {
+					runtime.Gosched()
+				}
+				for k := 0; k < delays[oi]; k++ { // ... and lands somewhere inside the handling of that read
+					runtime.Gosched()
+				}
+				f := o.f
+				t0 := rig.Seq()
+				switch o.kind {
+				case "fn":
+					f.obj.AddFunctionType(o.fn, o.rd, o.wr)
+					f.ops[o.fn] = [2]bool{o.rd, o.wr}
+				case "desc":
+					f.obj.SetDescriptionString(o.s)
+					s := o.s
+					f.desc = &s
+				case "feature":
+					f.obj = f.ent.GetOrAddFeature(f.typ, model.RoleTypeServer)
+					f.addr = f.obj.Address().String()
+					if d := f.obj.Description(); d != nil { // whatever description the API gave it
+						f.desc = util.Ptr(string(*d))
+					}
+				}
+				t1 := rig.Seq()
+				f.calls = append(f.calls, [2]int64{t0, t1})
+				f.versions = append(f.versions, render(f))
+			}
+		}()
+		go func() { // the peer
+			defer wg.Done()
+			<-startC
+			for i := range reads {
+				reads[i].start = rig.Seq()
+				readsSent.Add(1)
+				reads[i].mc = p.Send(model.CmdClassifierTypeRead, p.NM(), rig.LNM, false, nil, model.CmdType{NodeManagementDetailedDiscoveryData: &model.NodeManagementDetailedDiscoveryDataType{}})
+				reads[i].end = rig.Seq()
+			}
+			readsSent.Add(1 << 20) // the remaining calls need not wait
+		}()
+		close(startC)
+		wg.Wait()
+	})
+	if panicked != "" {
+		c.Violate("read-feat/panic", "%s", panicked)
+		return
+	}
+	if !ok {
+		c.Inconclusive("concurrent reads / feature changes did not return within 60s")
+		return
+	}
+	if n := p.PanicCount(); n > 0 {
+		c.Violate("read-feat/panic", "%s", p.Panics[n-1])
+		return
+	}
+	// (calls concerning a feature the plan creates are planned after its creation, and the application goroutine follows the plan in order)
+	outs := p.Tap.Take()
+	// the final read, after quiescence
+	finalMc := p.Send(model.CmdClassifierTypeRead, p.NM(), rig.LNM, false, nil, model.CmdType{NodeManagementDetailedDiscoveryData: &model.NodeManagementDetailedDiscoveryDataType{}})
+	outs = append(outs, p.Tap.Take()...)
+	byAddr := map[string]*feat{}
+	for _, f := range all {
+		if f.addr != "" {
+			byAddr[f.addr] = f
+		}
+	}
+	overlapped := 0
+	judge := func(i int, rd readRec, final bool) {
+		res := rig.Classify(outs, rd.mc)
+		c.Events(1)
+		if res.Replies != 1 || res.Errors != 0 || len(res.All[0].Payload.Cmd) != 1 || res.All[0].Payload.Cmd[0].NodeManagementDetailedDiscoveryData == nil {
+			c.Violate("read-feat/not-one-reply", "read %d: %s", i, res)
+			return
+		}
+		dd := res.All[0].Payload.Cmd[0].NodeManagementDetailedDiscoveryData
+		got := map[string]string{}
+		for _, fi := range dd.FeatureInformation {
+			l, okL := c07InfoLine(fi.Description)
+			if !okL {
+				c.Violate("read-feat/incomplete-feature-description", "read %d: %s", i, l)
+				continue
+			}
+			a := fi.Description.FeatureAddress.String()
+			if _, dup := got[a]; dup {
+				c.Violate("read-feat/feature-announced-twice", "read %d announces %s twice", i, a)
+			}
+			got[a] = l
+		}
+		anyOverlap := false
+		for _, f := range all {
+			lo, hi := 0, 0
+			for _, cl := range f.calls {
+				if cl[1] < rd.start {
+					lo++
+				}
+				if cl[0] < rd.end {
+					hi++
+				}
+			}
+			if final {
+				lo, hi = len(f.calls), len(f.calls)
+			}
+			if hi > lo {
+				anyOverlap = true
+			}
+			g := ""
+			if f.addr != "" {
+				g = got[f.addr]
+			}
+			match := false
+			for v := lo; v <= hi; v++ {
+				if f.versions[v] == g {
+					match = true
+				}
+			}
+			c.Events(1)
+			if !match && !final && g != "" {
+				// every FIELD of the line is one the feature had between call and return, but no state of the feature had
+				// them together: the description of one state next to the operations of another
+				gd, gops := c07LineFields(g)
+				okD, okO := false, false
+				for v := lo; v <= hi; v++ {
+					if f.versions[v] == "" {
+						continue
+					}
+					vd, vops := c07LineFields(f.versions[v])
+					okD = okD || vd == gd
+					okO = okO || vops == gops
+				}
+				if okD && okO {
+					c.Violate("read-feat/torn-feature-line/description-and-operations-of-different-states", "a read overlapping feature changes (read %d, stamps [%d,%d]) announces\n   %s\n the feature was, between the call and the return of that read, one of\n   %s\n (calls concerning it, as [call,return] stamps: %v): the announced description and the announced operations were each current during the read, but never together",
+						i, rd.start, rd.end, g, strings.Join(f.versions[lo:hi+1], "\n   "), f.calls)
+					c.Witness(map[string]any{"feature": f.addr, "versions": f.versions, "calls": f.calls, "read": []int64{rd.start, rd.end}})
+					c.Count("torn_feature_lines", 1)
+					continue
+				}
+			}
+			if !match {
+				what := "a read overlapping feature changes"
+				sig := "read-feat/feature-line-matches-no-state-of-the-feature"
+				if final {
+					what, sig = "the read after all calls had returned", "read-feat/final-read-differs-from-the-final-tree"
+				}
+				if g == "" {
+					g = "(not announced)"
+				}
+				cls := "other"
+				if len(f.versions[hi]) > 0 && g != "(not announced)" {
+					cls = c07DiffSig([]string{f.versions[hi]}, []string{g})
+				}
+				c.Violate(sig+"/"+cls, "%s (read %d, stamps [%d,%d]) announces\n   %s\n the feature was, between the call and the return of that read, one of\n   %s\n (calls concerning it, as [call,return] stamps: %v)",
+					what, i, rd.start, rd.end, g, strings.Join(f.versions[lo:hi+1], "\n   "), f.calls)
+				c.Witness(map[string]any{"feature": f.addr, "versions": f.versions, "calls": f.calls, "read": []int64{rd.start, rd.end}})
+				return
+			}
+		}
+		// nothing else of the entities 1..n is announced
+		for a := range got {
+			if _, known := byAddr[a]; !known && !strings.Contains(a, ":[0]:") {
+				c.Violate("read-feat/unknown-feature-announced", "read %d announces %s, which the application never created", i, a)
+			}
+		}
+		if anyOverlap && !final {
+			overlapped++
+		}
+	}
+	for i, rd := range reads {
+		if c.Failed() {
+			break
+		}
+		judge(i, rd, false)
+	}
+	if !c.Failed() {
+		judge(nReads, readRec{mc: finalMc}, true)
+	}
+	var kinds []string
+	for _, o := range plan {
+		kinds = append(kinds, o.kind[:2])
+	}
+	h := fnv.New64a()
+	h.Write([]byte(strings.Join(kinds, "")))
+	c.Shape(fmt.Sprintf("n=%d ops=%x overlapped=%d", nEnt, h.Sum64(), overlapped))
+	c.NonTrivial(overlapped > 0)
+	c.Count("reads_overlapping_a_feature_change", int64(overlapped))
+	c.Count("feature_changes_during_reads", int64(len(plan)))
+	c.Count("features_created_during_reads", int64(len(pending)))
+	c.Sample(map[string]any{"entities": nEnt, "operations": kinds, "reads": nReads, "reads_overlapping_a_feature_change": overlapped})
 }
